@@ -89,7 +89,7 @@ func runLifetime(c C13Case, ev *Evid) (fs []Finding) {
 	var err error
 	expectFail := true
 	switch c.Mode {
-	case "healthy-open":
+	case "healthy-open", "healthy-open-spawn":
 		os.WriteFile(path, valid, 0644)
 		db, err = openWT(path)
 		expectFail = false
@@ -134,8 +134,18 @@ func runLifetime(c C13Case, ev *Evid) (fs []Finding) {
 			return
 		}
 		if !fileExists(path) {
+			if c.Mode == "create-exists" {
+				add("existing-file-removed", "Create on an existing path failed (%v) and the existing file is gone", err)
+				return
+			}
 			ev.Count(HashJSON(c), true, "mode="+c.Mode)
 			return nil
+		}
+		if c.Mode == "create-exists" {
+			if b, _ := os.ReadFile(path); !bytesEq(b, valid) {
+				add("existing-file-modified", "Create on an existing path failed (%v) but changed the existing file", err)
+				return
+			}
 		}
 		if n := countFDs(path); n != 0 {
 			add("descriptor-leak", "the failed call (%v) left %d open descriptor(s) on the file", err, n)
@@ -198,7 +208,20 @@ func runLifetime(c C13Case, ev *Evid) (fs []Finding) {
 		}
 		close(done)
 	}()
-	time.Sleep(time.Duration(5+c.Cut%20) * time.Millisecond)
+	hold := time.Duration(5+c.Cut%20) * time.Millisecond
+	if c.Cut >= 1000 {
+		hold = time.Duration(c.Cut) * time.Millisecond // a holder that keeps the file for longer than any back-off budget
+	}
+	var child *exec.Cmd
+	if c.Mode == "healthy-open-spawn" {
+		// a process started while the handle is open must not keep the lock alive after Close
+		child = exec.Command(os.Args[0], "-test.run", "^TestChildNoop$")
+		child.Env = append(os.Environ(), "VERIF_CHILD=sleep", "VERIF_SLEEP_MS=1500")
+		if err := child.Start(); err != nil {
+			child = nil
+		}
+	}
+	time.Sleep(hold)
 	early := atomic.LoadInt32(&returned) == 1
 	db.Close()
 	select {
@@ -207,8 +230,11 @@ func runLifetime(c C13Case, ev *Evid) (fs []Finding) {
 		add("second-open-stuck", "a second Open did not return within 5 s after the first handle was closed")
 		return
 	}
+	if child != nil {
+		defer func() { child.Process.Kill(); child.Wait() }()
+	}
 	if early {
-		add("second-open-early", "a second Open returned while the first handle was still open")
+		add("second-open-early", "a second Open returned while the first handle was still open (held for %v)", hold)
 		return
 	}
 	if n := countFDs(path); n != 0 {
@@ -468,12 +494,12 @@ func genC13(t *rapid.T) C13Case {
 func TestC13(t *testing.T) {
 	RunProperty(t, Property[C13Case]{
 		ID:          "C13",
-		Rule:        "two kinds of generated cases. lifetime (80%): an Open or Create is made to fail after the descriptor was obtained (empty file, every truncation of a valid header, mutated / corrupt header bytes, body shorter than the header says, Create whose Truncate fails on a read-only descriptor, Create on an existing file) or succeeds (healthy); with the garbage collector disabled (so a finalizer cannot hide a leak) the harness counts /proc/self/fd links to the path, tries flock(LOCK_EX|LOCK_NB) on a fresh descriptor and opens the repaired path with a deadline; for healthy handles the probe must be refused while the handle lives, a second default Open must not return before Close, and both must succeed afterwards. sessions (20%): 2-8 concurrent open -> read counter -> generated yield -> stamp all 1200 slots (4 pages) with counter+1 -> Sync -> Close sessions x 1-6 rounds, as goroutines or as separate processes, with 0-3 readers fetching the whole archive in a loop; oracle: no session error, final counter == number of sessions, every reader fetch shows a single generation. Non-trivial: lifetime cases where the file exists after the call; session rounds in which >=2 sessions overlapped in time (measured). Every session round counts as distinct (its schedule is not reproducible).",
+		Rule:        "two kinds of generated cases. lifetime (80%): an Open or Create is made to fail after the descriptor was obtained (empty file, every truncation of a valid header, mutated / corrupt header bytes, body shorter than the header says, Create whose Truncate fails on a read-only descriptor, Create on an existing file) or succeeds (healthy); with the garbage collector disabled (so a finalizer cannot hide a leak) the harness counts /proc/self/fd links to the path, tries flock(LOCK_EX|LOCK_NB) on a fresh descriptor and opens the repaired path with a deadline; for healthy handles the probe must be refused while the handle lives, a second default Open must not return before Close (one fixed case holds the handle for 1.3 s), and both must succeed afterwards - also when a child process was started while the handle was open and is still running (one fixed case). sessions (20%): 2-8 concurrent open -> read counter -> generated yield -> stamp all 1200 slots (4 pages) with counter+1 -> Sync -> Close sessions x 1-6 rounds, as goroutines or as separate processes, with 0-3 readers fetching the whole archive in a loop; oracle: no session error, final counter == number of sessions, every reader fetch shows a single generation. Non-trivial: lifetime cases where the file exists after the call; session rounds in which >=2 sessions overlapped in time (measured). Every session round counts as distinct (its schedule is not reproducible).",
 		Assumptions: []string{"OS scheduling is not controlled: the session part is randomized stress, not an enumeration of interleavings", "flock semantics of the Linux kernel"},
 		Gen:         genC13,
 		Run:         runC13,
 		Fixed: func() []C13Case {
-			out := []C13Case{{Kind: "lifetime", Mode: "open-empty"}, {Kind: "lifetime", Mode: "create-readonly-flag"}, {Kind: "lifetime", Mode: "healthy-open", Cut: 7}, {Kind: "lifetime", Mode: "healthy-create", Cut: 3}}
+			out := []C13Case{{Kind: "lifetime", Mode: "healthy-open", Cut: 1300}, {Kind: "lifetime", Mode: "healthy-open-spawn", Cut: 9}, {Kind: "lifetime", Mode: "create-exists"}, {Kind: "lifetime", Mode: "open-empty"}, {Kind: "lifetime", Mode: "create-readonly-flag"}, {Kind: "lifetime", Mode: "healthy-open", Cut: 7}, {Kind: "lifetime", Mode: "healthy-create", Cut: 3}}
 			for cut := 1; cut < 28; cut += 3 {
 				out = append(out, C13Case{Kind: "lifetime", Mode: "open-truncated", Cut: cut})
 			}
